@@ -9,8 +9,10 @@ import (
 	"errors"
 	"flag"
 	"fmt"
+	"io"
 	"net"
 	"os"
+	"strings"
 	"sync"
 	"time"
 
@@ -225,9 +227,11 @@ type Pair struct {
 	Keys   [2][]byte // 72-byte frame keys per direction (nil when the derivation failed)
 	KeyErr string
 
-	HelloLen  int    // client handshake request
-	RespLen   int    // server handshake response without the inline seed frame
-	PostResp  []byte // everything the server wrote after the response up to the client's release (seed frame ‖ early data)
+	HelloLen  int      // client handshake request
+	RespLen   int      // server handshake response without the inline seed frame
+	PostResp  []byte   // everything the server wrote after the response up to the client's release (seed frame ‖ early data)
+	Surplus   []byte   // the part of PostResp the client's handshake reads picked up (left in receiveBuffer)
+	PostQueue [][]byte // the rest of PostResp, as the client's data-phase reads will see it
 	EarlyWire [][]byte
 	dir       string
 }
@@ -361,7 +365,9 @@ func Setup(p Params, o SetupOpts) (*Pair, error) {
 	}
 	pr.PostResp = append([]byte(nil), all[pr.RespLen:]...)
 	bounds := []int{pr.RespLen, pr.RespLen + seedFrame}
-	cc.FeedChunks(all, o.Resp.Split(len(all), bounds))
+	respSizes := o.Resp.Split(len(all), bounds)
+	pr.splitHandshakeReads(all, respSizes)
+	cc.FeedChunks(all, respSizes)
 	if !cc.Wait(opC) {
 		pr.Close()
 		return nil, errors.New("client Dial still blocked although the whole response was delivered")
@@ -400,6 +406,76 @@ func Setup(p Params, o SetupOpts) (*Pair, error) {
 		pr.KeyErr = "VerifClientArgs unavailable"
 	}
 	return pr, nil
+}
+
+// splitHandshakeReads works out which bytes after the response the client's handshake loop
+// reads (it reads into an 8192-byte buffer until the whole response is there: the first read
+// boundary at or after RespLen) and what stays queued for the data phase.
+func (p *Pair) splitHandshakeReads(all []byte, sizes []int) {
+	const hsBuf = 8192
+	pos, hsEnd := 0, -1
+	for _, n := range sizes {
+		if n <= 0 {
+			continue
+		}
+		if pos+n > len(all) {
+			n = len(all) - pos
+		}
+		if hsEnd < 0 {
+			off := 0
+			for off < n && hsEnd < 0 {
+				piece := n - off
+				if piece > hsBuf {
+					piece = hsBuf
+				}
+				off += piece
+				if pos+off >= p.RespLen {
+					hsEnd = pos + off
+				}
+			}
+			if hsEnd >= 0 && off < n {
+				p.PostQueue = append(p.PostQueue, all[pos+off:pos+n])
+			}
+		} else {
+			p.PostQueue = append(p.PostQueue, all[pos:pos+n])
+		}
+		pos += n
+	}
+	if pos < len(all) {
+		if hsEnd < 0 {
+			hsEnd = len(all) // (the final rest chunk; cannot happen with Split covering everything)
+		} else {
+			p.PostQueue = append(p.PostQueue, all[pos:])
+		}
+	}
+	if hsEnd < 0 {
+		hsEnd = p.RespLen
+	}
+	p.Surplus = append([]byte(nil), all[p.RespLen:hsEnd]...)
+}
+
+// ErrClass maps a Read error of an endpoint to the line protocol's error classes.
+func ErrClass(err error) string {
+	if err == nil {
+		return "none"
+	}
+	var te interface{ Timeout() bool }
+	s := err.Error()
+	switch {
+	case errors.Is(err, framing.ErrTagMismatch):
+		return "tag"
+	case errors.Is(err, framing.ErrNonceCounterWrapped):
+		return "nonce"
+	case errors.Is(err, io.EOF):
+		return "net:eof"
+	case errors.As(err, &te) && te.Timeout():
+		return "net:timeout"
+	case strings.HasPrefix(s, "packet: Invalid packet length"):
+		return "pktlen"
+	case strings.HasPrefix(s, "packet: Invalid payload length"):
+		return "paylen"
+	}
+	return "net:other"
 }
 
 // Write makes the sender of direction dir Write(data) and returns the wire bytes it handed to
